@@ -13,7 +13,7 @@ plan = {"C07": (["c07.py"], ["FlushProtocol", "Trace_FlushProtocol"]),
         "C08": (["c08.py"], ["Gorilla", "SeriesIdentity"]),
         "C11": (["c11.py", "c11_stress.py"] + (["c11_metrics.py"] if os.path.exists(os.path.join(V, "checks", "c11_metrics.py")) else []),
                 ["Visibility"] + (["MetricsVisibility"] if os.path.exists(os.path.join(V, "spec", "MetricsVisibility.tla")) else [])),
-        "C17": (["c17.py", "c17_sched.py", "c17_async.py", "c17_grammar.py"], ["QueryLifecycle", "Trace_QueryLifecycle", "Grammar", "GrammarClauses"])}
+        "C17": (["c17.py", "c17_sched.py", "c17_async.py", "c17_grammar.py"], ["QueryLifecycle", "Trace_QueryLifecycle", "Grammar", "GrammarClauses", "GrammarEval", "GrammarProm"])}
 props = {json.loads(l)["id"]: json.loads(l) for l in open(V + '/properties.jsonl')}
 kf = json.load(open(V + '/known_findings.json'))
 for pid, (checks, mods) in plan.items():
